@@ -1844,7 +1844,7 @@ Lemma print_param_facts : forall p, param_ok p = true ->
   starts_ns (print_param p) = true /\ rstrip (print_param p) = print_param p.
 Proof.
   intros [n d] H. unfold param_ok in H. cbn [pname pdefault] in H.
-  do 2 (apply andb_prop in H; destruct H as [H ?]). rename H into Hid. rename H0 into Hd. rename H1 into Hkw.
+  do 3 (apply andb_prop in H; destruct H as [H ?]). rename H into Hid. rename H0 into Hd. rename H2 into Hkw.
   destruct (identifier_facts n Hid) as [Hne [Hw Hns]]. unfold print_param. cbn [pname pdefault].
   assert (R : rstrip (match d with Some d0 => (n ++ "=" ++ d0)%string | None => n end) =
               (match d with Some d0 => (n ++ "=" ++ d0)%string | None => n end)).
@@ -1881,7 +1881,8 @@ Proof.
   intros sp [n d] acc seen names Hok Hnin Hseen.
   destruct (print_param_facts _ Hok) as [Hpl [Hne [Hst _]]].
   unfold param_ok in Hok. cbn [pname pdefault] in *.
-  do 2 (apply andb_prop in Hok; destruct Hok as [Hok ?]). rename Hok into Hid. rename H into Hd. rename H0 into Hkw.
+  do 3 (apply andb_prop in Hok; destruct Hok as [Hok ?]). rename Hok into Hid. rename H into Hd. rename H0 into Hmk.
+  rename H1 into Hkw. apply negb_true_iff in Hmk.
   apply negb_true_iff in Hkw. destruct (identifier_facts n Hid) as [Hnn [Hw Hns]].
   unfold ppp_step.
   assert (S1 : strip ((if sp then " " else "") ++ print_param (mkParam n d))%string = print_param (mkParam n d)).
@@ -1892,8 +1893,8 @@ Proof.
     rewrite (find_char_app n "=" d (word_no_eq n Hw)). rewrite take_app.
     replace (S (String.length n)) with (String.length n + 1) by lia. rewrite drop_app_plus.
     change (drop 1 (String "=" d)) with d.
-    rewrite (strip_fixed n Hns (word_rstrip n Hw)), (trimmed_eq d Ht). rewrite Hid, Hkw, Hnin. reflexivity.
-  - rewrite (find_char_none n "=" (word_no_eq n Hw)). rewrite (Hseen eq_refl), Hid, Hkw, Hnin. reflexivity.
+    rewrite (strip_fixed n Hns (word_rstrip n Hw)), (trimmed_eq d Ht). rewrite Hid, Hkw, Hmk, Hnin. reflexivity.
+  - rewrite (find_char_none n "=" (word_no_eq n Hw)). rewrite (Hseen eq_refl), Hid, Hkw, Hmk, Hnin. reflexivity.
 Qed.
 
 Lemma ppp_loop_print : forall ps acc seen names,
